@@ -23,6 +23,15 @@ CLAIMED = {
          "Known finding F11/C02 (negative IBig % unsigned primitive panics) is matched by call form and input class.",
     technique="TLA+ algorithm-layer model checked by TLC + TLC-generated cases replayed into the code + TLC trace validation",
     design="5.C02"),
+ "C09": dict(
+    text="The sign-case tables of & | ^ !, IBig::bit and the floor correction of IBig >> n (are_low_bits_nonzero in its double-word and "
+         "slice variants) are transcribed into TLA+ over a 3-bit word (BitsAlg) and model-checked exhaustively (370 k states) against the "
+         "bit-string definition, with the clamp constant of are_dword_low_bits_nonzero read from the source; TLC enumerates op x type pair x "
+         "word count x pattern x bit position (Gen_C09), the library executes every case in every call form (owned/borrowed/assign, all "
+         "primitive widths on either side, mixed UBig/IBig), and a TLC monitor validates each result with two's-complement windows on BigInt.",
+    note="Trusted: TLC, BigInt window arithmetic (self-checked against native integers). Operands up to ~33 words in GEN, 20 words random.",
+    technique="TLA+ algorithm-layer model checked by TLC + TLC-generated cases replayed into the code + TLC trace validation",
+    design="5.C09"),
 }
 NA_REASON = "check not built yet in this round (planned, see DESIGN.md section 9)"
 
